@@ -257,6 +257,11 @@ func c02r2(c *Ctx) {
 				amt = s.Env.Term(call.Call.Args[2])
 				if amt == recvT {
 					amt = s.Env.Term(call.Call.Args[1])
+				} else if !amountRe.MatchString(amt) && !strings.HasPrefix(amt, "neg(") {
+					// a number prepared in a local and possibly negated in place under a flag of the calling context
+					if v, ok := s.Env.bigValueAt(call.Call.Args[2], call, 0); ok {
+						amt = v
+					}
 				}
 				dir = "+"
 				if strings.HasPrefix(amt, "neg(") {
